@@ -346,8 +346,21 @@ func isErrNonNilEdge(a, b *ssa.BasicBlock, errv ssa.Value) bool {
 
 // sameErr: v is errv or a load of a cell into which errv was the last store in the block (named results).
 func sameErr(v, errv ssa.Value) bool {
+	return sameErrD(v, errv, 0)
+}
+
+func sameErrD(v, errv ssa.Value, d int) bool {
 	if v == errv {
 		return true
+	}
+	// `err = a(); ... else err = b(); if err != nil`: the test covers whichever call produced the value
+	if phi, ok := v.(*ssa.Phi); ok && d < 4 {
+		for _, e := range phi.Edges {
+			if sameErrD(e, errv, d+1) {
+				return true
+			}
+		}
+		return false
 	}
 	if ld, ok := v.(*ssa.UnOp); ok && ld.Op.String() == "*" {
 		// find the latest store to the same address before the load in the same block
